@@ -101,8 +101,55 @@ def vecs(xs):
     return [x.tolist() for x in xs]
 
 
+def run_rk_case(inst, p):
+    """Runge-Kutta base class with a Z_p Butcher tableau (matrix = inst['QI'], weights = inst['w'])"""
+    from pySDC.implementations.sweeper_classes.Runge_Kutta import RungeKutta
+    zp.set_modulus(p)
+    M = inst['M']
+
+    class ZRK(RungeKutta):
+        nodes = np.array([(m + 1) / M for m in range(M)], dtype=float)
+        weights = np.array(inst['w'], dtype=float)
+        matrix = np.array(inst['QI'], dtype=float)
+
+    desc = dict(problem_class=zp.ZpLinearRK, problem_params=dict(A=tuple(tuple(r) for r in inst['A'])), sweeper_class=ZRK, sweeper_params={},
+                level_params=dict(dt=dt_float(inst['dt'])), step_params=dict(maxiter=1))
+    out = dict(res=[0, 0, 0], rel_ok=True)
+    S = Step(desc)
+    L = S.levels[0]
+    L.status.time = 0.0
+    L.status.sweep = 1
+    L.u[0] = zp.mesh(list(inst['u0']))
+    L.f[0] = L.prob.eval_f(L.u[0], 0.0)
+    for m, um in enumerate(inst['U']):
+        L.u[m + 1] = zp.mesh(list(um))
+        L.f[m + 1] = L.prob.eval_f(L.u[m + 1], 0.0)
+    L.status.unlocked = True
+    out['integrate'] = vecs(L.sweep.integrate())
+    out['uend'] = []
+    try:
+        L.sweep.update_nodes()
+        out['defined'] = True
+        out['sweep'] = vecs(L.u[1:])
+        gsa = list(inst['QI'][M - 1]) == list(inst['w'])
+        fresh = [L.prob.eval_f(L.u[m], 0.0) for m in range(1, M + 1)]
+        # the right-hand side of the last stage is not evaluated for stiffly accurate schemes
+        out['f_fresh'] = all(a == b for a, b in list(zip(fresh, L.f[1:]))[: M - 1 if gsa else M])
+        out['u0_kept'] = L.u[0].tolist() == list(inst['u0'])
+        L.sweep.compute_end_point()
+        out['uend_after'] = L.uend.tolist()
+        out['types_ok'] = all(type(x).__name__ == 'mesh' for x in L.u[1:]) and type(L.uend).__name__ == 'mesh'
+    except (ProblemError, ValueError, ZeroDivisionError):
+        out['defined'] = False
+        out['sweep'] = []
+        out['uend_after'] = []
+    return out
+
+
 def run_sweep_case(inst, p):
     """returns dict(sweep=.., integrate=.., res=[max,last,nnz(u0)], uend=.., defined=bool)"""
+    if inst['kind'] == 'rk':
+        return run_rk_case(inst, p)
     zp.set_modulus(p)
     zp.install_generators()
     kind = inst['kind']
